@@ -2,6 +2,7 @@ package c07
 
 import (
 	"fmt"
+	"math"
 	"sort"
 	"strings"
 	"testing"
@@ -311,7 +312,26 @@ func check(c *combCase, o *vk.Obs) []string {
 			if d < 0 {
 				d = -d
 			}
-			if d > int64(nsrc)/2+1 {
+			// Scaling is defined on float64 ("multiplying each value by the ratio"): each scaled value is
+			// rounded to an integer (0.5) and carries the relative precision of a float64 product; values
+			// that cancel in the source total (+1s, -1s) stay large individually. A product that does not
+			// fit an int64 has no representable result at all: not asserted.
+			ratio := float64(baseTot[i]) / float64(srcTot[i])
+			tol, overflow := 1.0, false
+			for _, p := range srcs {
+				for _, s := range p.Sample {
+					m := math.Abs(float64(vec(p, s, names, finest)[i]) * ratio)
+					if m >= 1<<62 {
+						overflow = true
+					}
+					tol += 0.5 + m/(1<<51)
+				}
+			}
+			if overflow {
+				o.Label("normalize-overflow")
+				continue
+			}
+			if float64(d) > tol {
 				if vk.Known("C07-normalize-drops-samples") && normalizeDropHit(srcs, bases, names, finest) {
 					o.Exclude("C07-normalize-drops-samples")
 					continue
